@@ -6,7 +6,7 @@ import (
 )
 
 func init() {
-	registry["C07"] = entry{run: func(r *monitor.Run) { c07.RunStore(r); c07.RunWire(r); c07.RunRace(r) }, level: "exploration",
-		rule: "cases = (a) histories of AddOrReplace/Remove/ClearAll on the retained store (exhaustive short histories over 5 topics + seeded random over ~80 topics), every lookup compared with a map model after each step; (b) wire scenarios: retained publishes/clears by v3/v5 publishers, then subscriptions with every filter shape x QoS x Retain Handling x RAP x shared x version incl. re-subscription, replayed PUBLISH packets compared with the model. Non-trivial = the store was non-empty / at least one retained message matched a subscription; distinct by scenario. (c) races of a retained PUBLISH against a SUBSCRIBE for its topic on two connections over a retained store that takes 3 ms per update: the acknowledged subscriber sees the kept message at least once.",
+	registry["C07"] = entry{run: func(r *monitor.Run) { c07.RunStore(r); c07.RunWire(r); c07.RunRace(r); c07.RunWills(r) }, level: "exploration",
+		rule: "cases = (a) histories of AddOrReplace/Remove/ClearAll on the retained store (exhaustive short histories over 5 topics + seeded random over ~80 topics), every lookup compared with a map model after each step; (b) wire scenarios: retained publishes/clears by v3/v5 publishers, then subscriptions with every filter shape x QoS x Retain Handling x RAP x shared x version incl. re-subscription, replayed PUBLISH packets compared with the model. Non-trivial = the store was non-empty / at least one retained message matched a subscription; distinct by scenario. (c) races of a retained PUBLISH against a SUBSCRIBE for its topic on two connections over a retained store that takes 3 ms per update: the acknowledged subscriber sees the kept message at least once. Plus (d) wills with RETAIN=1: with a payload they replace what the topic holds, with an empty payload they clear it (v3.1.1/v5 testators, QoS 0-2, broken and taken-over connections, with and without a prior message), checked in RetainedService and in what a new subscription is sent.",
 		assumptions: []string{"reference matcher implements MQTT 4.7", "completeness of replay decided by an API-published sentinel (queue and connection are FIFO)"}}
 }
